@@ -315,7 +315,9 @@ func (x *Exec) verifyFunction(fn *ssa.Function, fc *FuncContract, prop string, r
 				}
 			}
 			if !found {
-				cfail("%s: contract of %s names loop %d, which does not exist in the current body", x.P.posStr(fc.Pos), shortKey(fc.Key), n)
+				// the body was restructured: the clauses for that loop have nothing to attach to; the
+				// remaining obligations (ensures, frame, safety) decide whether the function still meets its contract
+				x.note(fmt.Sprintf("contract of %s has clauses for loop %d, which does not exist in the current body (ignored)", shortKey(fc.Key), n))
 			}
 		}
 	}
